@@ -1417,4 +1417,66 @@ example : MppGen.blindedReceiveRefuses 1000 990 500 480 1000 500 = false ∧ Mpp
     MppGen.blindedReceiveRefuses 1000 1000 501 480 1000 500 = true := by decide
 example : MppGen.reloadPart ⟨580, 600, 1, some 970, 500, some 20⟩ = ⟨580, 600, 0, some 970, 500, some 20⟩ := by decide
 
+/-! ### round 6: the even (required) custom TLVs of `RecipientOnionFields::check_merge`, for ALL TLV lists -/
+
+/-- the even-typed (must-understand) custom TLVs of a part's onion fields, in order -/
+def evenTlvs (o : MppGen.OnionG) : List (Nat × Nat) := o.custom_tlvs.filter (fun t => decide (t.1 % 2 = 0))
+
+/-- `RecipientOnionFields::check_merge` as TRANSLATED from outbound_payment.rs (`MppGen.checkMergeErr`, the very function the
+    part step of the model calls): whenever it answers `Ok(())` for the stored fields `self` and those of a newly arrived
+    part, both carry the same payment_secret / payment_metadata / total_msat and EXACTLY the same even custom TLVs (same
+    types, same values, same order) — for arbitrary TLV lists on both sides, so in particular an even TLV that only the LATER
+    part carries is a mismatch just as one that only the earlier part carries. Not provable when the comparison is a
+    containment test in one direction only (`even_tlvs.any(|tlv| !further_tlvs.contains(tlv))`, which gen_inbound.py
+    translates as it stands): `self` without even TLVs then merges with anything. -/
+theorem merge_ok_implies_same_even_tlvs (self further : MppGen.OnionG) (h : MppGen.checkMergeErr self further = false) :
+    self.payment_secret = further.payment_secret ∧ self.payment_metadata = further.payment_metadata ∧
+    self.total_mpp_amount_msat = further.total_mpp_amount_msat ∧ evenTlvs self = evenTlvs further := by
+  simp only [MppGen.checkMergeErr] at h
+  by_cases h1 : self.payment_secret = further.payment_secret
+  · by_cases h2 : self.payment_metadata = further.payment_metadata
+    · by_cases h3 : self.total_mpp_amount_msat = further.total_mpp_amount_msat
+      · refine ⟨h1, h2, h3, ?_⟩
+        simpa [h1, h2, h3, evenTlvs] using h
+      · simp [h1, h2, h3] at h
+    · simp [h1, h2] at h
+  · simp [h1] at h
+
+/-- ... and conversely: equal fields and equal even TLVs are never refused, whatever the ODD TLVs are (those are only
+    intersected). Together: `check_merge` = `Ok(())` iff the three fields and the even TLV sequences agree. -/
+theorem merge_ok_iff_same_even_tlvs (self further : MppGen.OnionG) :
+    MppGen.checkMergeErr self further = false ↔
+      (self.payment_secret = further.payment_secret ∧ self.payment_metadata = further.payment_metadata ∧
+       self.total_mpp_amount_msat = further.total_mpp_amount_msat ∧ evenTlvs self = evenTlvs further) := by
+  refine ⟨merge_ok_implies_same_even_tlvs self further, fun ⟨h1, h2, h3, h4⟩ => ?_⟩
+  simp only [evenTlvs] at h4
+  simp [MppGen.checkMergeErr, h1, h2, h3]
+  simpa using h4
+
+/-- the whole gate sequence of `handle_claimable_htlc` (`MppGen.handleClaimable`, translated): a part that is not refused —
+    held or completing the set, i.e. every part a PaymentClaimable can ever be about — carries exactly the even custom TLVs
+    of the entry's stored onion fields, in whatever order the parts arrive. -/
+theorem claimable_parts_agree_on_even_tlvs (pending : Bool) (purpose entry_purpose : Nat) (entry_fields onion_fields : MppGen.OnionG)
+    (htlc_set : List MppGen.PartG) (new_htlc : MppGen.PartG)
+    (h : (MppGen.handleClaimable pending purpose entry_purpose entry_fields onion_fields htlc_set new_htlc).1 ≠ .reject) :
+    evenTlvs entry_fields = evenTlvs onion_fields := by
+  cases hm : MppGen.checkMergeErr entry_fields onion_fields with
+  | false => exact (merge_ok_implies_same_even_tlvs _ _ hm).2.2.2
+  | true =>
+    exfalso; apply h
+    simp only [MppGen.handleClaimable, hm]
+    split
+    · rfl
+    · split <;> rfl
+
+-- non-vacuity: accepted with equal even TLVs and differing odd ones; refused when only the LATER part carries the even TLV,
+-- when only the EARLIER one does, and when the value differs; and an accepting run of the whole gate sequence
+example : MppGen.checkMergeErr ⟨1, 1, 1000, [(65536, 7), (65537, 1)]⟩ ⟨1, 1, 1000, [(65536, 7), (65539, 2)]⟩ = false ∧
+    MppGen.checkMergeErr ⟨1, 1, 1000, []⟩ ⟨1, 1, 1000, [(65536, 7)]⟩ = true ∧
+    MppGen.checkMergeErr ⟨1, 1, 1000, [(65537, 1)]⟩ ⟨1, 1, 1000, [(65537, 1), (65538, 42)]⟩ = true ∧
+    MppGen.checkMergeErr ⟨1, 1, 1000, [(65536, 7)]⟩ ⟨1, 1, 1000, []⟩ = true ∧
+    MppGen.checkMergeErr ⟨1, 1, 1000, [(65536, 7)]⟩ ⟨1, 1, 1000, [(65536, 8)]⟩ = true := by decide
+example : (MppGen.handleClaimable false 1 1 ⟨1, 1, 1000, [(65536, 7)]⟩ ⟨1, 1, 1000, [(65536, 7), (65537, 3)]⟩
+    [⟨400, 400, 0, some 1000, 480, none⟩] ⟨600, 600, 0, some 1000, 500, none⟩).1 ≠ .reject := by decide
+
 end Ldk.C04
